@@ -143,6 +143,9 @@ def graph_source(defs):
 
     emit("Pq", ["#[quantity]", '#[ref_unit(Pbase, "pb")]', '#[unit(Pkilo, "pk", 1000)]'])
     emit("Qq", ["#[quantity]", '#[ref_unit(Qbase, "qb")]', '#[unit(Qmilli, "qm", 0.001)]'])
+    # bystanders: a single-unit quantity (it has no comparison operators at all) and one without reference unit
+    emit("Sq", ["#[quantity]", '#[unit(Sole_Unit, "su")]'])
+    emit("Nq", ["#[quantity]", '#[unit(Nleft, "nl")]', '#[unit(Nright, "nr")]'])
     for i, (r, a, op, b) in enumerate(defs):
         tag = r.lower()
         emit(r, ["#[quantity(%s %s %s)]" % (a, op, b), '#[ref_unit(%sbase, "%sb")]' % (r, tag),
@@ -183,7 +186,7 @@ def graph_conflict(defs):
                 return True
             seen[k] = r
     # an operator that coincides with a built-in one of the same type pair
-    base = admissible(["Pq", "Qq", AMT] + [d[0] for d in defs], [])
+    base = admissible(["Pq", "Qq", "Sq", "Nq", AMT] + [d[0] for d in defs], [])
     return any(k in base for k in seen)
 
 
@@ -191,7 +194,8 @@ def run_graph(args):
     gi, defs, backend, tier = args
     stats = {"programs": 0, "expected_accept": 0, "expected_reject": 0, "codes": set()}
     violations = []
-    types = ["Pq", "Qq"] + [d[0] for d in defs] + [AMT]
+    types = ["Pq", "Qq"] + [d[0] for d in defs] + ["Sq", "Nq", AMT]
+    comparable = set(types) - {"Sq"}
     paths = {t: t for t in types}
     paths[AMT] = "quantities::AmountT"
     header, ranges = graph_source(defs)
@@ -217,7 +221,7 @@ def run_graph(args):
                 "example": {"case": {"graph": name}, "observed": "%d errors: %s" % (len(errs), [e["code"] for e in errs][:5]),
                             "expected": "E0119 at a derived definition"}})
         return stats, violations
-    adm = admissible(types, defs)
+    adm = admissible(types, defs, comparable)
     progs = build_programs(types, adm, paths)
     judge_batch("graph%02d" % gi, header, progs, paths, backend, tier, stats, violations)
     stats["graphs_explored"] = 1
@@ -329,7 +333,7 @@ def run(prop, tier, seed, t0):
                 "{+,-,*,/,==,<} (both back-ends); the same for the 4 astronomical types and AmountT (150) and all 672 "
                 "cross-crate pairs (f64); and every derivation graph over two base types and AmountT with one or two "
                 "derived types (first in {P*P, P*Q, P/Q, Q/P, AmountT/P}, second in all 15 shapes over {P, Q, D1}: 80 "
-                "graphs; thorough: every conflict-free one of them extended by a third derivation in all 26 shapes over "
+                "graphs, each with a single-unit and a no-reference-unit bystander type; thorough: every conflict-free one of them extended by a third derivation in all 26 shapes over "
                 "{P, Q, D1, D2}), each with its full |types|^2 x 6 program set, or - if two derivations generate the same operator - "
                 "rejected as a whole with E0119 at a derived definition. Expected verdict and result type come from the "
                 "model's closure of the declared derivations; verdict per program = presence of an error whose primary "
